@@ -363,6 +363,12 @@ Proof.
   unfold policy_set. destruct (negb (policy_in_range cfg key v)); intros H; inv H. apply Eff_withA.
 Qed.
 
+Lemma whitelist_set_bal st a fee st' r : whitelist_set cfg st a fee = Some (st', r) -> Bal st st'.
+Proof. unfold whitelist_set. destruct (fee <? 0); intros H; inv H. apply Eff_withA. Qed.
+
+Lemma whitelist_remove_bal st a st' r : whitelist_remove st a = Some (st', r) -> Bal st st'.
+Proof. unfold whitelist_remove. destruct (_ =? 0); intros H; inv H. apply Eff_withA. Qed.
+
 Lemma set_gas_per_block_bal st v st' r : set_gas_per_block st v = Some (st', r) -> Bal st st'.
 Proof.
   unfold set_gas_per_block. destruct ((v <? 0) || (v >? 10 * 100000000)); intros H; inv H. apply Eff_withA.
@@ -395,6 +401,8 @@ Proof.
   - destruct (committee_witness st t); [apply block_account_bal; auto|discriminate].
   - destruct (committee_witness st t); [apply unblock_account_bal|discriminate].
   - destruct (committee_witness st t); [apply policy_set_bal|discriminate].
+  - destruct (committee_witness st t && i_halt t); [|discriminate].
+    destruct fee; [apply whitelist_set_bal|apply whitelist_remove_bal].
   - discriminate.
   - destruct (i_halt t); intros H; inv H. apply Eff_refl.
 Qed.
